@@ -112,6 +112,10 @@ func (c *Collection) Update(id string, msg proto.Message, opts ...WriteOption) (
 		&c.mu,
 		func() (item proto.Message, err error) {
 			if created != nil {
+				if _, exists := c.byId[id]; exists {
+					// someone else created the item since our first read: fail the re-validation
+					return nil, nil
+				}
 				return created, nil
 			}
 
